@@ -15,10 +15,10 @@ def lvl(what):
 
 CHECKS = {
     "C01": ("differential round-trip monitor with three independent decoders",
-            lvl("every one-shot compression (sizes 0..64 exhaustively, all 256 levels, every boundary size, large lazy-parse stress inputs, seeded random sizes) is judged by panic capture, the crate's own decoder, an RFC-1951 reference decoder and system zlib, and levels > 10 must be byte-identical to level 10."),
+            lvl("every one-shot compression (sizes 0..64 exhaustively, all 256 levels, every boundary size, large lazy-parse stress inputs, inputs with planted repeats at the far edge of the 32 KiB window, seeded random sizes) is judged by panic capture, the crate's own decoder, an RFC-1951 reference decoder and system zlib, and levels > 10 must be byte-identical to level 10."),
             COMMON_NOTE, "DESIGN.md §3 C01"),
     "C02": ("online call monitor + end-of-history stream oracle over generated call schedules",
-            lvl("call histories over all 880 configurations x 3 APIs x 8 schedule families (1-byte outputs, k-byte outputs, empty chunks, every flush kind, flush while pending...) are monitored call by call (bounds, status) and the concatenated output must be exactly one stream that the reference decoder and zlib decode to the input; the verif_probe hook shows how many suspensions had pending output / a saved lazy match."),
+            lvl("call histories over all 880 configurations x 3 APIs x 8 general schedule families (1-byte outputs, k-byte outputs, empty chunks, every flush kind, flush while pending...) plus 5 directed families (LZ-buffer fills through tiny outputs, inputs sized on the block thresholds with a flush in the same call, 1-byte trickle past 31 KiB, call boundaries straddling every dictionary wrap) are monitored call by call (bounds, status) and the concatenated output must be exactly one stream that the reference decoder and zlib decode to the input; the verif_probe hook shows how many suspensions had pending output / a saved lazy match."),
             COMMON_NOTE, "DESIGN.md §3 C02"),
     "C03": ("grammar-generated valid streams through 10 decoder entry points, reference-model oracle",
             lvl("valid streams with the plaintext known by construction (grammar generator covering 11-15 bit codes, one-symbol codes, empty/stored blocks at all 8 alignments, boundary-crossing runs, len 258, dist 32768, overlaps), plus miniz, zlib and file streams, must decode to the plaintext through every entry point; construct coverage is gated from the reference trace."),
@@ -54,7 +54,7 @@ CHECKS = {
             lvl("a sequential specification of the inflate() protocol, written from the property statement, is evaluated on every call of all 64^3 (quick) / 64^4 (thorough) action sequences for 12 streams (valid, trailing bytes, truncated, corrupt) plus a legal drain, and on random histories with window-wrapping outputs; what the property leaves open (non-Finish after Finish, empty output slice, what follows a failed Finish) is deliberately not asserted."),
             COMMON_NOTE + "; the specification itself (harness/src/mon/c13.rs)", "DESIGN.md §3 C13"),
     "C14": ("online checker of a sequential protocol specification over exhaustively enumerated call sequences + twin compressor",
-            lvl("a sequential specification of the deflate() protocol is evaluated on every call of all 48^3 / 48^4 action sequences for 6 inputs x 3 configurations followed by a Finish drain and a reference decode of the delivered bytes; refused empty-output calls are checked for side effects through the hook and through a twin history without them; random histories cover all 880 configurations and outputs smaller than a flush marker."),
+            lvl("a sequential specification of the deflate() protocol is evaluated on every call of all 48^3 action sequences for 6 inputs x 3 configurations (thorough: also all 48^4 sequences for the 4 small inputs) followed by a Finish drain and a reference decode of the delivered bytes; refused empty-output calls are checked for side effects through the hook and through a twin history without them; random histories cover all 880 configurations and outputs smaller than a flush marker."),
             COMMON_NOTE + "; the specification itself (harness/src/mon/c14.rs)", "DESIGN.md §3 C14"),
     "C15": ("bound monitor with guard-page destinations of exactly the advertised size",
             "Runtime monitoring (release build): mz_compress2 and mz_deflate(MZ_FINISH) write into guard-page buffers of exactly mz_compressBound(n) / mz_deflateBound(n) bytes for n = 0..300 exhaustively, around every block-size threshold up to 4 MiB (16 MiB thorough) and random sizes, over incompressible and adversarial near-incompressible contents, levels -1..10 and all strategies; minimum slack and maximum expansion are reported. Held on the executions observed; not a proof.",
